@@ -72,6 +72,9 @@ func runC06UnderRM(c *Ctx) {
 	type variant struct {
 		seq           string
 		twoTx, asText bool
+		// commitFault: the first COMMIT the database sees in the first delivery fails (for a rollback before any
+		// try that is the commit of the fence transaction, which carries the suspension record)
+		commitFault bool
 	}
 	var variants []variant
 	for _, seq := range []string{"PCC", "PCCC", "PRR", "R", "RR", "RP", "PCR", "PRC"} {
@@ -83,6 +86,7 @@ func runC06UnderRM(c *Ctx) {
 	for _, seq := range []string{"PCC", "PRR", "R", "RR"} {
 		variants = append(variants, variant{seq: seq, asText: true})
 	}
+	variants = append(variants, variant{seq: "RP", commitFault: true}, variant{seq: "RRP", commitFault: true})
 	for i, v := range variants {
 		seq := v.seq
 		cid := fmt.Sprintf("fd-rm-%d", i)
@@ -107,7 +111,12 @@ func runC06UnderRM(c *Ctx) {
 				panic(err)
 			}
 			xid, branchID := "10.0.0.9:8091:4242", int64(7)
-			for _, ph := range seq {
+			for k, ph := range seq {
+				if v.commitFault && k == 0 {
+					e.AddFault(memdb.Fault{Kind: "commit", Nth: 1})
+				} else {
+					e.ClearFaults()
+				}
 				switch ph {
 				case 'P':
 					ctx := tm.InitSeataContext(context.Background())
@@ -163,11 +172,23 @@ func runC06UnderRM(c *Ctx) {
 		if !v.twoTx && (confirms > 1 || cancels > 1 || tries > 1) {
 			fail("effect_applied_twice", counts)
 		}
+		if v.commitFault {
+			// the suspension record of the first rollback could not be committed: either that delivery is answered
+			// "not done" (and the coordinator repeats it), or - if it is answered done - the try that arrives late
+			// must find the record and be refused
+			firstDone := len(answers) > 0 && answers[0] == undone
+			if firstDone && tries > 0 {
+				fail("try_applied_after_acknowledged_rollback", fmt.Sprintf("answers %v, tries/confirms/cancels %s", answers, counts))
+			}
+			if seq == "RRP" && (len(answers) < 3 || answers[1] != undone || answers[2] != "P:refused" || tries > 0) {
+				fail("try_applied_after_acknowledged_rollback", fmt.Sprintf("the repeated rollback records the suspension, the late try is refused: answers %v, counts %s", answers, counts))
+			}
+		}
 		if confirms > 0 && cancels > 0 {
 			fail("confirm_and_cancel_both_applied", counts)
 		}
 		twice := map[string]string{"PC": "1/2/0", "PCC": "1/2/0", "PR": "1/0/2", "PRR": "1/0/2"}
-		if w, ok := want[seq]; ok || v.twoTx {
+		if w, ok := want[seq]; (ok && !v.commitFault) || v.twoTx {
 			if v.twoTx {
 				// the two transactions of the one delivery that applies the phase both take effect, no delivery after it does
 				w.counts = twice[seq]
@@ -191,7 +212,8 @@ func runC06UnderRM(c *Ctx) {
 			fail("fence_driver_left_a_transaction_open", fmt.Sprint(open))
 		}
 		c.Out.Case(cid, "C06", "skip", "skip")
-		c.Out.Oracle(cid, class == "", class, fmt.Sprintf("%s | seq=%s two-transactions=%v error-as-text=%v answers=%v counts=%s", detail, seq, v.twoTx, v.asText, answers, counts))
+		e.ClearFaults()
+		c.Out.Oracle(cid, class == "", class, fmt.Sprintf("%s | seq=%s two-transactions=%v error-as-text=%v commit-fault=%v answers=%v counts=%s", detail, seq, v.twoTx, v.asText, v.commitFault, answers, counts))
 		c.Out.Tag(cid, "nontrivial=1")
 		c.Out.Count("fence-driver.under-rm")
 	}
